@@ -16,7 +16,7 @@ Property theorems (all inputs, any strict weak order on the keys, any number of 
   * `model_refines_spec`, `front_ends_refine_spec` — END TO END: the executed model `pmmBase` / `pmm` (what the
                                       driver runs) returns the first `size` of the k-merge, target+size, begins at the
                                       partition of rank `size`, adjacent windows — all inputs, threads ≥ 1, both splittings;
-                                      only hypothesis about C08: `PartSpec` (the partition model returns the partition)
+                                      no assumption about multisequence_partition (C08 refinement_correct)
   * `front_end_switch`              — the sequential/parallel decision table of the four front ends
 The per-thread sequential merge is its specification `kMerge` (C05); offsets are assumed to satisfy the
 C08 specification `IsPartition`.  OPEN items are listed at the end.
@@ -25,6 +25,7 @@ import TlxVerif.Proofs.C07Split
 import TlxVerif.Proofs.C07Windows
 import TlxVerif.Proofs.C07Phases
 import TlxVerif.Proofs.C07Refine
+import TlxVerif.Proofs.C07Final
 import TlxVerif.Proofs.C08Checker
 namespace TlxVerif.C07
 open TlxVerif.C08 (StrictWeak IsPartition)
@@ -110,29 +111,29 @@ theorem sliceChunk_eq (run : List Elem) (a b : Nat) (hab : a ≤ b) (hb : b ≤ 
   have h : ¬ ((decide (b < a) || decide (b > run.length)) = true) := by simp; omega
   rw [if_neg h]; rfl
 
-/-- **End to end, parallel base** (closes the former OPEN item `pmmBase_refines_spec`): the executable model
-of `parallel_multiway_merge_base` — the function the driver runs in the correspondence — succeeds and returns
+/-- **End to end, parallel base** (closes the former OPEN item `pmmBase_refines_spec`, and with the C08
+correctness theorem needs no assumption about `multisequence_partition`): the executable model of
+`parallel_multiway_merge_base` — the function the driver runs in the correspondence — succeeds and returns
 the first `size` elements of the stable k-merge, `target + size`, the begins advanced to the partition at rank
 `size`, and adjacent per-thread windows tiling `[0, size)`; for all well-tagged key-sorted inputs (empty
-sequences allowed), `size ≤ total`, threads ≥ 1, oversampling ≥ 1, exact and sampling splitting. -/
+sequences allowed), `size ≤ total`, threads ≥ 1, oversampling ≥ 1, exact and sampling splitting (for any
+in-range sample index function, hence for the IEEE-double one of the driver). -/
 theorem model_refines_spec (P : Params) (hlt : StrictWeak P.lt) (seqsAll : List (List Elem))
     (hw : WellTagged seqsAll) (hk : KeySorted P.lt seqsAll) (size : Nat) (hsize : size ≤ seqsAll.flatten.length)
     (hthr : 1 ≤ P.threads) (hosf : 1 ≤ P.osf)
-    (hidx : ∀ (len i ns : Nat), 0 < len → P.sampleIdx len i ns size size < len)
-    (hpart : PartSpec P.lt (nonEmpty seqsAll)) :
+    (hidx : ∀ (len i ns : Nat), 0 < len → P.sampleIdx len i ns size size < len) :
     ∃ r, pmmBase P seqsAll size = .ok r ∧ r.out = (kMerge P.lt seqsAll).take size ∧ r.ret = (size : Int) ∧
       (∃ o, IsPartition P.lt (keyRuns (nonEmpty seqsAll)) size o ∧ r.begins = scatterBegins seqsAll o) ∧
       TileFrom 0 size r.windows :=
-  pmmBase_refines_spec P hlt seqsAll hw hk size hsize hthr hosf hidx hpart
+  pmmBase_correct P hlt seqsAll hw hk size hsize hthr hosf hidx
 
 /-- **End to end, the four front ends** -/
 theorem front_ends_refine_spec (P : Params) (hlt : StrictWeak P.lt) (fs fp : Bool) (mk mn : Nat)
     (seqsAll : List (List Elem)) (hw : WellTagged seqsAll) (hk : KeySorted P.lt seqsAll) (size : Nat)
     (hsize : size ≤ seqsAll.flatten.length) (hthr : 1 ≤ P.threads) (hosf : 1 ≤ P.osf)
-    (hidx : ∀ (len i ns : Nat), 0 < len → P.sampleIdx len i ns size size < len)
-    (hpart : PartSpec P.lt (nonEmpty seqsAll)) :
+    (hidx : ∀ (len i ns : Nat), 0 < len → P.sampleIdx len i ns size size < len) :
     ∃ r, pmm P fs fp mk mn seqsAll size = .ok r ∧ r.out = (kMerge P.lt seqsAll).take size ∧ r.ret = (size : Int) :=
-  pmm_refines_spec P hlt fs fp mk mn seqsAll hw hk size hsize hthr hosf hidx hpart
+  pmm_correct P hlt fs fp mk mn seqsAll hw hk size hsize hthr hosf hidx
 
 /-! ### non-vacuity: the DESIGN §5 D1 input, three threads -/
 
@@ -176,8 +177,8 @@ length is `-1`. -/
 example : (samplingOffs exLt exRuns [1]).map List.sum = [3, 6] := by decide
 example : min ((6 : Int) - 3) ((2 : Int) - 3) = -1 := by decide
 
--- (the former OPEN item pmmBase_refines_spec is closed by `model_refines_spec`; its hypothesis `PartSpec` is the
---  C08 statement `msp_correct` for the non-empty sequences.)
+-- (the former OPEN item pmmBase_refines_spec is closed by `model_refines_spec`; the C08 correctness theorem
+--  `C08.msp_correct_lists` discharges the hypothesis about multisequence_partition.)
 -- OPEN: data_race_freedom — `merge_phase_all_schedules` proves schedule independence for threads whose steps
 --   have the window footprints; that the real per-thread `multiway_merge_base` touches nothing outside
 --   (chunks read-only, own window written) is asserted at window granularity, checked by the harness
